@@ -34,7 +34,8 @@ REQUIRED_THEOREMS = ["datastage_exact", "dataStage_concat", "dataStage_packet_le
                      "dist_runtime_returns_quiescent", "mux_returns_idle", "block_requests_exact",
                      "dist_requests_exact", "mux_requests_exact", "block_datastage_exact",
                      "dist_datastage_exact", "mux_datastage_exact",
-                     "get_descriptor_end_to_end", "get_descriptor_stall_iff_absent"]
+                     "get_descriptor_end_to_end", "get_descriptor_stall_iff_absent",
+                     "get_descriptor_end_to_end_contract", "script_legal"]
 RULE = ("cases = (handler class in {block, distributed, mux(block+distributed runtime)}, max packet size in "
         "{8,16,32,64}, random descriptor collection of 1..10 descriptors with lengths 1..300 weighted to "
         "packet-size multiples, types 0..15 and a few vendor types, sparse/consecutive indexes, string descriptors, "
@@ -55,18 +56,38 @@ ASSUMPTIONS = [
     "runtime descriptors are opaque generators supplied by the application; the repo's USBDescriptorStreamGenerator "
     "is used for them with lengths that are not multiples of 8 (such a generator cannot represent "
     "start_position == its length; the fixed-descriptor path was repaired for that case, see notes/C09.md)",
+    "end-to-end theorems (Props/C09EndToEnd.lean): no additional request handlers; the host history before the read "
+    "is legal (LegalHostM, USB 2.0 8.5 transaction formats); every streamer window is long enough for its packet "
+    "at the block handler's largest latency and tx.ready pattern (WinFromM: the packet generator consumes the "
+    "packet before the host's next token); the free streamer inputs of the expansion are silent (TDSil; the closed "
+    "loop does not read them); the descriptor-window latencies are the block handler model's own (1..4 cycles)",
 ]
-PARTIAL = ("All three items of the former PARTIAL are theorems now: rom_lookup_correct (wellFormed coll -> romOk "
-           "(Rom.layout coll) coll, arbitrary collections); mux_packet_exact (block handler for the fixed + distributed "
-           "handler for the runtime descriptors through the mux model, from any stall-latch values; STALL iff neither "
-           "owns the wValue); return-to-idle (block_returns_idle / dist_returns_quiescent / mux_returns_idle) and "
-           "sequences of requests (block/dist/mux_requests_exact), composed with dataStage into the whole data stage "
-           "on each handler model (block/dist/mux_datastage_exact).  Remaining, co-simulation + monitor only: runtime "
-           "generators other than the repo's USBDescriptorStreamGenerator over a byte string (and for those, requests "
-           "at start_position == length, excluded by ASSUMPTIONS); the composition with the real "
-           "StandardRequestHandler / USBDataPacketGenerator (the theorems take the handler-port view: start pulse, "
-           "value/length/start_position held, arbitrary tx.ready pattern; datastage_exact links packets to the host's "
-           "in-order read); theorems are about the Lean models, tied to the gateware by the co-simulation.")
+PARTIAL = ("Theorems: rom_lookup_correct (wellFormed coll -> romOk (Rom.layout coll) coll, arbitrary collections); "
+           "block/dist/mux_packet_exact, *_returns_idle, *_requests_exact, *_datastage_exact (each handler model at its "
+           "ports: whole data stage = dataStage, STALL iff absent); and END TO END (Props/C09EndToEnd.lean, composed "
+           "with C07's cycle-level closed loop of USBControlEndpoint FSM + request multiplexer + StandardRequestHandler "
+           "+ its StreamSerializer + GetDescriptorHandlerBlock over Rom.layout coll, which harness/props/c07_cyc.py "
+           "co-simulates cycle by cycle against the real control endpoint): get_descriptor_end_to_end - for every "
+           "wellFormed collection, max packet size in {8,16,32,64}, every (type,index) present, 0 < wLength < 65536, "
+           "after every legal host history, the host's read (SETUP transaction, IN+ACK per packet; script_legal: a "
+           "legal host behaviour) gets on the control endpoint's tx stream exactly dataStage dd wLength mps under "
+           "DATA1/DATA0 alternating, payloads concatenating to dd.take wLength, every packet <= mps; "
+           "get_descriptor_stall_iff_absent - the first data-stage IN is answered with STALL iff the collection has "
+           "no such descriptor.  Former item 'composition with the real StandardRequestHandler' is thereby a theorem "
+           "for the block handler.  REMAINING (co-simulation + monitor only): (a) distributed handler and handler "
+           "mux inside the control endpoint: only at contract level (get_descriptor_end_to_end_contract: any "
+           "descriptor handler that presents respTrace(lat+1) of the specified response in each window - which "
+           "dist/mux_packet_exact prove of those models at their ports - gives dataStage on the bus); the "
+           "cycle-level wiring of those two models into the closed loop (C07's cl2_desc exists for the block "
+           "handler only) is not formal; (b) below the control endpoint's tx stream: USBDataPacketGenerator, CRC16, "
+           "UTMI transmit (properties C03 / C20) and the receive path that produces the token / setup / handshake "
+           "strobes (C04-C06) - the cycle-level model takes those strobes as inputs and the theorems assume each "
+           "packet is consumed within its window (WinFromM) by a generator that is ready only during a started "
+           "packet; (c) runtime generators other than the repo's USBDescriptorStreamGenerator over a byte string "
+           "(and for those, requests at start_position == length, excluded by ASSUMPTIONS); (d) additional request "
+           "handlers next to the standard one (c.extra = []), wLength = 0 (no data stage), descriptors of 2048 "
+           "bytes or more; theorems are about the Lean models, tied to the gateware by the co-simulations "
+           "(c09.py at the handler ports, c07_cyc.py at the control endpoint).")
 
 MPS = (8, 16, 32, 64)
 RESP_DEADLINE = 12          # a handler answers (packet begins or stall) within this many cycles of `start`
